@@ -45,6 +45,10 @@ func main() {
 			codecCheck(c, `{"C05"}`)
 		case "C06":
 			checkC06(c)
+		case "C18":
+			checkC18(c)
+		case "C19":
+			checkC19(c)
 		case "C09":
 			wireCheck(c, "C09", false, nil)
 		case "C10":
